@@ -3,6 +3,7 @@ import concurrent.futures
 import json
 import os
 import re
+import shutil
 import sys
 
 import vlib
@@ -61,9 +62,75 @@ def compile_one(b, p, wd):
     return {"rc": rc, "timeout": to, "text": text, "present": present, "lines": src.count("\n") + 1, "src": src}
 
 
+def mapsat_phase(chk, b, wd, tier):
+    """Function values with domain parameters (spec/MapSat.tla): TLC derives, for every pair of signatures within the bounds,
+    whether passing fn where use expects its parameter type is well typed (every application use may make is one fn can
+    serve) and checks that this is the contravariant rule; every case is compiled."""
+    import json
+    import random
+    sys.path.insert(0, os.path.join(vlib.VERIF, "gen"))
+    import mapsat
+    cfg, ncat = ("MapSat", 3) if tier == "quick" else ("MapSat3", 4)
+    r = vlib.tlc("MapSat", cfg, workers=4, timeout=900)
+    chk.add_tlc(cfg, r)
+    if r.violated:
+        chk.violation("MapSat.tla violates %s" % r.violated, r.trace_text, key={"model": "MapSat", "inv": r.violated})
+        return
+    cases = [json.loads(l[5:]) for l in r.printed if isinstance(l, str) and l.startswith("CASE ")]
+    if len(cases) < 600:
+        raise vlib.MachineryError("MapSat exported only %d cases" % len(cases))
+    cases.sort(key=lambda c: json.dumps(c, sort_keys=True))
+    if len(cases) > 4000:
+        good = [c for c in cases if c["ok"]]
+        rnd = random.Random(chk.seed + 61)
+        cases = good[:1500] + rnd.sample([c for c in cases if not c["ok"]], 2500)
+
+    def one(ic):
+        i, c = ic
+        d = os.path.join(wd, "ms%05d" % i)
+        os.makedirs(d, exist_ok=True)
+        src = mapsat.render(c, ncat)
+        open(os.path.join(d, "p.as"), "w").write(src)
+        rc, out, err, to = vlib.aldor(b, ["-Fao", "-Fc", "p.as"], d, timeout=120)
+        text = (out + err).decode(errors="replace")
+        present = [f for f in ("p.ao", "p.c") if os.path.exists(os.path.join(d, f))]
+        shutil.rmtree(d, ignore_errors=True)
+        return {"rc": rc, "timeout": to, "text": text, "present": present, "src": src}
+    with concurrent.futures.ThreadPoolExecutor(max_workers=vlib.NCPU) as ex:
+        res = list(ex.map(one, enumerate(cases)))
+    n_ok = 0
+    for c, r_ in zip(cases, res):
+        shape = "arity" if len(c["formal"]["ps"]) != len(c["actual"]["ps"]) else "result" if c["formal"]["ret"] != c["actual"]["ret"] \
+            else "same" if c["formal"]["ps"] == c["actual"]["ps"] else "wider" if c["ok"] else "narrower"
+        chk.case(("mapsat", json.dumps(c, sort_keys=True)), nontrivial=True)
+        n_ok += 1 if c["ok"] else 0
+        has_err = bool(re.search(r"\((?:Fatal )?Error\)", r_["text"]))
+        faulted = "Program fault" in r_["text"] or "Bug:" in r_["text"] or (r_["rc"] is not None and r_["rc"] < 0) or r_["timeout"]
+        prob = None
+        if faulted:
+            prob = "fault"
+        elif c["ok"] and (r_["rc"] != 0 or has_err):
+            prob = "rejects-well-typed"
+        elif not c["ok"] and (r_["rc"] == 0 or not has_err):
+            prob = "accepts-ill-typed"
+        elif not c["ok"] and not re.search(r"\[L\d+ C\d+\]", r_["text"]):
+            prob = "no-source-position"
+        elif not c["ok"] and r_["present"]:
+            prob = "output-after-error"
+        if prob:
+            chk.violation("%s: function value (%s) -> %s passed where (%s) -> %s is expected (parameters are domains of the categories "
+                          "K<i> of a chain; %s)" % (prob, ",".join("K%d" % k for k in c["actual"]["ps"]), c["actual"]["ret"],
+                                                    ",".join("K%d" % k for k in c["formal"]["ps"]), c["formal"]["ret"], shape),
+                          {"case": c, "rc": r_["rc"], "compiler_output": r_["text"][:2000], "files_present": r_["present"],
+                           "source": r_["src"]}, key={"kind": prob, "catalogue": "mapsat", "shape": shape})
+    chk.traces += len(cases)
+    chk.extra["mapsat"] = {"cases": len(cases), "well_typed": n_ok, "categories": ncat}
+
+
 def run(chk, tier):
     b = vlib.vbuild()
     wd = vlib.scratch("c06")
+    mapsat_phase(chk, b, wd, tier)
     nbase = 40 if tier == "quick" else 300
     cap = 30 if tier == "quick" else 100        # (every catalogue entry stays represented per base program; bounds memory)
     bases = progen.generate((chk.seed + 41) % 1000003, nbase)
